@@ -14,6 +14,12 @@ package shard
 // statement: every address the metadata reports as available is returned in full by the
 // shard's read calls with the bytes that were put.
 //
+// Besides these sequential histories there are overlapping ones (vf15GenOverlapHist): the
+// cache's background flusher is advanced to some of its own step boundaries and held there
+// while operations on members of the batch in flight execute (vf15Ctl), so that the steps
+// of put / delete / GC interleave with the steps of a flush round the way the script says.
+// Every complete run is also judged after a clean stop behind its last operation.
+//
 // The oracle knows nothing about the order of the component steps: it only compares what
 // the metabase says with what can be read.
 
@@ -929,8 +935,6 @@ func vf15NormStep(s string) string {
 	return s
 }
 
-var vf15T0 = time.Now()
-
 func TestVerif_C15(t *testing.T) {
 	if spec, ok := verifkit.ChildSpec(); ok {
 		vf15Child(spec)
@@ -1033,7 +1037,6 @@ func TestVerif_C15(t *testing.T) {
 	if nOver > 0 && r.Counter("overlap_flusher_held_at_boundary") == 0 {
 		r.Inconclusive("no history got the background flusher held inside a flush round")
 	}
-	fmt.Printf("vf15-timing: dry phase done at %v\n", time.Since(vf15T0))
 	// 2. one crash child per (point, k)
 	var jobs []*vf15Job
 	for _, d := range dry {
@@ -1087,7 +1090,6 @@ func TestVerif_C15(t *testing.T) {
 			r.Inconclusive(fmt.Sprintf("history %d crash@%s#%d: child ended unexpectedly (exit %d, signal %v, timeout %v): %s", jb.hs.idx, jb.name, jb.k, res.ExitCode, res.Signal, res.TimedOut, strings.TrimSpace(res.Output)))
 		}
 	})
-	fmt.Printf("vf15-timing: crash phase done at %v\n", time.Since(vf15T0))
 	if e, re := r.Counter("crash_cases_enumerated"), r.Counter("crash_cases_reached"); re*10 < e*9 {
 		r.Inconclusive(fmt.Sprintf("only %d of %d enumerated crash points were reached", re, e))
 	}
